@@ -52,7 +52,12 @@ def Scn.cfg {L} (s : Scn L) : Cfg L :=
     maxRetries := s.mr }
 
 inductive AKind where
-  | terr
+  /-- `client.Do` failed; `e`: what the error answers to `errors.Is(context.Canceled)` /
+  `errors.Is(context.DeadlineExceeded)` / `Timeout()`, measured by the harness on the error value.  The
+  monitor does not look at `e`: the property speaks of "transient failures", whatever their kind. -/
+  | terr (e : TErr)
+  /-- the caller's own context ended while the request was in flight -/
+  | ctx
   | st (code : Nat)
   | ok (cut : Nat) (t : Term)
 deriving DecidableEq, Repr
@@ -82,6 +87,8 @@ inductive EndObs where
   | reconnect
   | sessionMissing
   | st (code : Option Nat)
+  /-- the call returned the error of the caller's own context (cancelled / deadline exceeded) -/
+  | ctx
   | other
 deriving DecidableEq, Repr
 
@@ -97,10 +104,13 @@ def endObsOf (sa : Bool) : Ended → EndObs
   | .failed .sessionGone => .sessionMissing
   | .failed (.status c) => .st (some c)
   | .streaming => if sa then .ok else .hang
+  | .cancelled => .ctx
 
 /-- a record of a case after its `scn` record -/
 inductive Rec (L : Type) where
   | x (r : XRec)
+  /-- the caller's context was cancelled while no request was in flight (at `t` µs) -/
+  | cancel (t : Nat)
   | delivered (ls : List L)
   | fin (o : EndObs)
   | leak (leaked : Bool)
@@ -123,7 +133,7 @@ structure Exch where
 deriving DecidableEq, Repr
 
 def Exch.isOk (e : Exch) : Bool := match e.kind with | .ok _ _ => true | _ => false
-def Exch.isTerr (e : Exch) : Bool := match e.kind with | .terr => true | _ => false
+def Exch.isTerr (e : Exch) : Bool := match e.kind with | .terr _ => true | _ => false
 def Exch.isSt (e : Exch) : Bool := match e.kind with | .st _ => true | _ => false
 
 /-- the exchange as the monitor books it: the completely received items from the byte lengths; an
@@ -147,7 +157,8 @@ def scanOfX {L} (s : Scn L) (r : XRec) : Option ScanOut :=
 /-- the exchange as an attempt of the model's reconnect loop -/
 def attemptOfX {L} (s : Scn L) (r : XRec) : Attempt :=
   match r.kind with
-  | .terr => .terr
+  | .terr e => .terr e
+  | .ctx => .ctxEnded true
   | .st c => .resp c (fun _ => ⟨[], .clean⟩)
   | .ok _ _ =>
     match scanOfX s r with
@@ -161,6 +172,8 @@ structure Mon where
   cursorLost : Bool := false
   /-- some reconnect carried a Last-Event-ID other than the id of the last completely received event -/
   wrongCursor : Bool := false
+  /-- the caller's own context has ended (a `cancel` record, or an exchange of kind `ctx`) -/
+  ctxEnded : Bool := false
 deriving Repr
 
 def gotOf (ex : List Exch) : List Nat := ex.flatMap (·.complete)
@@ -227,6 +240,7 @@ inductive Clause where
   | fruitlessExceeded
   | connectExceeded
   | delay (delay lo hi attempt : Nat) (hint : Int)
+  | afterCancel
   -- the `delivered` record
   | foreign
   | dupOrOrder
@@ -251,6 +265,7 @@ inductive Clause where
   | statusNotReturned
   | unclassified
   | unexpectedError
+  | ctxLive
   -- the `leak` record
   | leak
 deriving DecidableEq, Repr
@@ -303,7 +318,7 @@ def lastIsStatus (ex : List Exch) (c : Nat) : Bool :=
   | some e => (match e.kind with | .st c' => c == c' | _ => false)
   | none => false
 
-def monEnd {L} (s : Scn L) (ex : List Exch) : EndObs → Option Clause
+def monEnd {L} (s : Scn L) (ex : List Exch) (ctxEnded : Bool) : EndObs → Option Clause
   | .hang => some .hang
   | .decode => some .f5Decode
   | .malformed => some .f5Malformed
@@ -326,6 +341,7 @@ def monEnd {L} (s : Scn L) (ex : List Exch) : EndObs → Option Clause
       if lastIsStatus ex Generated.ClientStream.sessionGoneStatus then none else some .sessionMissingNo404
     | .st (some c) => if lastIsStatus ex c then none else some .statusNotReturned
     | .st none => some .unclassified
+    | .ctx => if ctxEnded then none else some .ctxLive
     | _ => some .unexpectedError
 
 /-- one record: the new bookkeeping and the clause raised, if any -/
@@ -336,10 +352,13 @@ def monStep {L} [BEq L] (s : Scn L) (m : Mon) : Rec L → Mon × Option Clause
       let cur := cursorOf s m.exch
       ({ exch := m.exch ++ [exchOf s r],
          cursorLost := m.cursorLost || (r.hdr == none && cur != []),
-         wrongCursor := m.wrongCursor || (r.hdr != none && r.hdr != hdrOf cur) },
-       monAttempt s m.exch r.hdr r.tStart)
+         wrongCursor := m.wrongCursor || (r.hdr != none && r.hdr != hdrOf cur),
+         ctxEnded := m.ctxEnded || r.kind == .ctx },
+       -- the retry loop must stop with the caller: no attempt once the caller's context has ended
+       if m.ctxEnded then some .afterCancel else monAttempt s m.exch r.hdr r.tStart)
+  | .cancel _ => ({ m with ctxEnded := true }, none)
   | .delivered ls => (m, monDelivered s m ls)
-  | .fin o => (m, monEnd s m.exch o)
+  | .fin o => (m, monEnd s m.exch m.ctxEnded o)
   | .leak b => (m, if b then some .leak else none)
 
 /-- the bookkeeping after a list of records -/
